@@ -284,3 +284,5 @@ def _f_s3_unplaced(case: dict[str, Any], v: dict[str, Any]) -> bool:
 FINDINGS = {
     "s3-multi-inverter-split-drops-unplaceable-power": _f_s3_unplaced,
 }
+
+LEVEL_NOTE += ' Rounds 13-14: two requests for disjoint battery groups in flight at once.'
